@@ -30,3 +30,8 @@ pub assume_specification<T, P: FnMut(&T) -> bool>[ <[T]>::partition_point ](s: &
         exists|keep: Seq<bool>| keep.len() == s@.len()
             && (forall|i: int| 0 <= i < s@.len() ==> pred.ensures((&s@[i],), #[trigger] keep[i]))
             && ((exists|p: int| 0 <= p <= keep.len() && #[trigger] verdicts_partitioned(keep, p)) ==> verdicts_partitioned(keep, r as int));
+/// char::is_ascii_whitespace (std docs): U+0020 SPACE, U+0009 TAB, U+000A LF, U+000C FORM FEED, U+000D CR -- and nothing else
+pub open spec fn is_ascii_whitespace_spec(c: &char) -> bool { *c == ' ' || *c == '\t' || *c == '\n' || *c == '\x0C' || *c == '\r' }
+#[verifier::when_used_as_spec(is_ascii_whitespace_spec)]
+pub assume_specification[ char::is_ascii_whitespace ](c: &char) -> (r: bool)
+    ensures r == is_ascii_whitespace_spec(c);
